@@ -65,15 +65,16 @@ type iterState struct {
 }
 
 type runner struct {
-	c       *Case
-	disk    *simdisk.Disk
-	model   *Model
-	out     *RunOut
-	db      *leveldb.DB
-	knobs   Knobs
-	mon     *monitor
-	faulty  bool // faults or crashes are part of this case
-	noScrib bool
+	c        *Case
+	disk     *simdisk.Disk
+	model    *Model
+	out      *RunOut
+	db       *leveldb.DB
+	knobs    Knobs
+	mon      *monitor
+	faulty   bool // faults or crashes are part of this case
+	heldVals []heldVal
+	noScrib  bool
 
 	pos           int // next op index of the sequential client
 	crashed       bool
@@ -274,6 +275,7 @@ func (r *runner) closeDB() {
 		return
 	}
 	r.releaseHandles()
+	r.checkHeld()
 	simrt.SetOp("Close")
 	err := r.db.Close()
 	simrt.SetOp("")
@@ -822,6 +824,31 @@ func (r *runner) doGet(op *Op, tx *txCtx) {
 		scribble(val) // the returned value is the caller's to modify
 		r.probe("scribble-get")
 	}
+	if found && len(val) > 0 {
+		// the value belongs to the caller from now on: whatever the DB does
+		// later (flushes, compactions, cache eviction, buffer reuse) must not
+		// change it
+		if len(r.heldVals) >= 16 {
+			r.heldVals = r.heldVals[1:]
+		}
+		r.heldVals = append(r.heldVals, heldVal{s: val, want: append([]byte(nil), val...), what: fmt.Sprintf("%sGet(%q)", pfx, op.Key)})
+	}
+}
+
+type heldVal struct {
+	s, want []byte
+	what    string
+}
+
+// checkHeld: values returned by earlier Gets are still what they were.
+func (r *runner) checkHeld() {
+	for _, h := range r.heldVals {
+		if !bytes.Equal(h.s, h.want) {
+			r.viol("get", "get:value-changed-later", fmt.Sprintf("the value returned by %s changed in the caller's hands afterwards: it is backed by memory the DB still writes to", h.what))
+			r.heldVals = nil
+			return
+		}
+	}
 }
 
 func (r *runner) newIter(op *Op, tx *txCtx) *iterState {
@@ -1024,6 +1051,7 @@ func (r *runner) execTx(op *Op) {
 }
 
 func (r *runner) execOp(op *Op, tx *txCtx) {
+	r.checkHeld()
 	switch op.K {
 	case "put", "del", "write":
 		r.doWrite(op, tx)
